@@ -86,7 +86,8 @@ def step (line : String) : String :=
           (List.range (m - 1)).all (fun d => low.getD d 0 < up.getD d 0) && sorted &&
           P.all (fun p => SharkVerif.HOY.lastC p < cover &&
             (List.range (m - 1)).all (fun d => p.getD d 0 < up.getD d 0) &&
-            ((List.range split).filter fun d => low.getD d 0 < p.getD d 0).length < 2)
+            ((List.range split).filter fun d => low.getD d 0 < p.getD d 0).length < 2 &&
+            (List.range (m - 1)).all (fun d => d ≤ split || low.getD d 0 ≤ p.getD d 0))
         if !ok then "skip"
         else
           let v : Int := if n == 0 then 0 else SharkVerif.HOY.stream sq.toNat (16 * (n + m) + 64) low up P split cover
